@@ -107,11 +107,15 @@ func NewConsumerGroup(parent, fanOutPath string, q FanOutQueue) (ConsumerGroup, 
 	if hasMeta {
 		consumedSeq = int64(metaPage.ReadUint64(consumerGroupConsumedSeqOffset))
 		ackSeq = int64(metaPage.ReadUint64(consumerGroupAcknowledgedSeqOffset))
-		ackOfQueue := q.Queue().AcknowledgedSeq()
-		// if queue ack > consume group ack, need reset use queue ack
-		if ackSeq < ackOfQueue {
-			ackSeq = ackOfQueue
-		}
+	}
+	// a new or reopened group never starts below the queue ack(messages at or below it may be gone),
+	// and its consumed sequence never stays behind its acknowledged sequence.
+	ackOfQueue := q.Queue().AcknowledgedSeq()
+	if ackSeq < ackOfQueue {
+		ackSeq = ackOfQueue
+	}
+	if consumedSeq < ackSeq {
+		consumedSeq = ackSeq
 	}
 	// persist metadata
 	metaPage.PutUint64(uint64(consumedSeq), consumerGroupConsumedSeqOffset)
